@@ -230,7 +230,106 @@ def rule_cleanup_loop(model):
     return r
 
 
-RULES = [rule_mirror, rule_chunks, rule_encoder_twins, rule_cleanup_loop]
+def rule_link_agreement(model):
+    r = RuleResult('C20.R5', 'the request parameters the tag writes into '
+                   'its links / cookie are the ones it reads back, with the '
+                   'same meaning (expand vs collapse)')
+    rd = model.func('TreeTag', 'tpRender')
+    wr = model.func('TreeTag', 'tpRenderTABLE')
+    # reader: md['tree-X'] decoded and applied with expand flag
+    read = {}
+    for n in own_nodes(rd.node):
+        if isinstance(n, ast.If) and isinstance(n.test, ast.Compare) and \
+                isinstance(n.test.left, ast.Constant) and \
+                isinstance(n.test.left.value, str) and \
+                n.test.left.value.startswith('tree-'):
+            key = n.test.left.value
+            for c in ast.walk(n):
+                if isinstance(c, ast.Call) and norm(c.func) == 'apply_diff' \
+                        and len(c.args) == 3 and \
+                        isinstance(c.args[2], ast.Constant):
+                    read[key] = bool(c.args[2].value)
+                    # the diff applied is the one decoded from this key
+                    src = ast.unparse(n)
+                    if f"decode_seq(md['{key}'])" not in src:
+                        r.finding(rd.where, f'{key}', 'the diff applied is '
+                                  'not decoded from the parameter tested',
+                                  node=n, ctx=rd)
+    r.instance(rd.where, f'reads {read}')
+    if len(read) != 2:
+        raise AnalysisError(f'tpRender: expand/collapse parameters not '
+                            f'found ({read})')
+    if set(read.values()) != {True, False}:
+        r.finding(rd.where, f'apply_diff flags {read}', 'both click '
+                  'parameters are applied with the same flag: a node can '
+                  'no longer be collapsed (or expanded)', node=rd.node,
+                  ctx=rd)
+    # writer: link under `if exp:` (node is expanded) must be the collapse
+    # parameter, the other one the expand parameter
+    wrote = {}
+    for n in own_nodes(wr.node):
+        if isinstance(n, ast.If) and norm(n.test) == 'exp':
+            for branch, expanded in ((n.body, True), (n.orelse, False)):
+                for c in ast.walk(ast.Module(body=branch, type_ignores=[])):
+                    if isinstance(c, ast.Constant) and \
+                            isinstance(c.value, str) and 'tree-' in c.value \
+                            and '=%s' in c.value:
+                        import re as _re
+                        for k in _re.findall(r'(tree-[a-z])=', c.value):
+                            wrote[k] = expanded
+    r.instance(wr.where, f'writes (param -> node currently expanded) '
+               f'{wrote}')
+    for k, expanded in wrote.items():
+        if k not in read:
+            r.finding(wr.where, f'link parameter {k}', f'the tag writes '
+                      f'{k}= into its links but never reads it back',
+                      node=wr.node, ctx=wr)
+        elif read[k] == expanded:
+            r.finding(wr.where, f'link parameter {k}', 'an expanded node '
+                      'carries the expand link (or a collapsed node the '
+                      'collapse link): clicking does not toggle the node',
+                      node=wr.node, ctx=wr)
+    if len(wrote) != 2:
+        r.finding(wr.where, f'link parameters {sorted(wrote)}', 'expected '
+                  'exactly one expand and one collapse link form',
+                  node=wr.node, ctx=wr)
+    # link payload: encode_str(compress(json.dumps(diff))) -- the same
+    # stages decode_seq undoes
+    pay = [n for n in own_nodes(wr.node) if isinstance(n, ast.Call)
+           and norm(n.func) == 'encode_str']
+    for n in pay:
+        r.instance(wr.where, n, 'link payload')
+        if norm(n) != 'encode_str(compress(json.dumps(diff)))':
+            r.finding(wr.where, n, 'the link payload is not '
+                      'encode_str(compress(json.dumps(path))), which is '
+                      'what decode_seq undoes', node=n, ctx=wr)
+    if not pay:
+        raise AnalysisError('tpRenderTABLE: link payload not found')
+    # cookie name
+    cw = [n for n in own_nodes(rd.node) if isinstance(n, ast.Call)
+          and norm(n.func).endswith('.setCookie') and n.args
+          and isinstance(n.args[0], ast.Constant)]
+    cr = [n.test.left.value for n in own_nodes(rd.node)
+          if isinstance(n, ast.If) and isinstance(n.test, ast.Compare)
+          and isinstance(n.test.left, ast.Constant)
+          and n.test.left.value == 'tree-s']
+    for c in cw:
+        r.instance(rd.where, c, 'cookie write')
+        if c.args[0].value not in cr:
+            r.finding(rd.where, c, f'the state is written to cookie '
+                      f'{c.args[0].value!r} but read from {cr}', node=c,
+                      ctx=rd)
+        if norm(c.args[1]) != 'state' or \
+                'state = encode_seq(state)' not in ast.unparse(rd.node):
+            r.finding(rd.where, c, 'the cookie does not carry '
+                      'encode_seq(state)', node=c, ctx=rd)
+    if not cw:
+        raise AnalysisError('tpRender: cookie write not found')
+    return r
+
+
+RULES = [rule_mirror, rule_chunks, rule_encoder_twins, rule_cleanup_loop,
+         rule_link_agreement]
 EXPLANATION = (
     'Stage extraction of the encoder and decoder pipelines and comparison '
     'of the decoder with the reversed inverse stage list; arithmetic '
